@@ -5,6 +5,9 @@ import "errors"
 func (app *App) enterMaintenance(maintenance *Maintenance, master string) error {
 	if app.config.DisableSemiSyncReplicationOnMaintenance {
 		node := app.cluster.Get(master)
+		if node == nil {
+			return errors.New("master " + master + " is recorded in dcs but is not a registered cluster host")
+		}
 		err := node.SemiSyncDisable()
 		if err != nil {
 			return err
